@@ -18,7 +18,7 @@ IMPORTS = "Base States Linalg Graph Transition Observation Dist Unilateral"
 
 
 def gen_case(rng, tier):
-    base = rng.choice([2, 2, 2, 3])
+    base = rng.choice([2, 2, 3])
     maxl = 3 if base == 2 else 2
     g = gen.gen_graph(rng, max_lnls=maxl, base=base)
     mt = rng.randint(0, 5 if tier == "thorough" else 4)
@@ -26,6 +26,13 @@ def gen_case(rng, tier):
          "max_time": mt, "dists": gen.gen_dists(rng, mt)}
     c["query_t"] = list(c["dists"])[0] if rng.random() < 0.9 else "nostage"
     c["steps"] = [rng.randint(0, 3), rng.randint(0, 3)]
+    micro = [k for k in c["params"] if k.endswith("_micro")]
+    if micro and rng.random() < 0.3:          # boundary: a micro modifier of exactly 0 on an arc that does spread
+        k = rng.choice(micro)
+        c["params"][k] = 0.0
+        sp = k[:-len("micro")] + "spread"
+        if c["params"].get(sp, 0.0) == 0.0:
+            c["params"][sp] = 0.5
     return c
 
 
